@@ -56,6 +56,9 @@ structure Ctl where
   v9SkipEmpty : Bool
   /-- `FieldParser::parse`: total size 0 is a parse error (instead of a division by zero) -/
   v9ZeroIsErr : Bool
+  /-- `FieldParser::parse`: the record loop STOPS at the first record that does not decode (`for … { … Err(_) => break }`); `false` is
+      the `fold` of the code before the fix, which went on — and failed again — for every remaining iteration -/
+  v9StopOnErr : Bool
   /-- saturation bound of `get_total_size` (u16) -/
   v9SizeSat : Nat
   /-- ipfix.rs `IPFix`: `header.length.saturating_sub(N)`; `FlowSet`: `saturating_sub(N)` -/
@@ -89,7 +92,7 @@ structure Ctl where
 def Ctl.std : Ctl :=
   { gateFirst := true, v5ErrVersion := 5, v7ErrVersion := 7, v9ErrVersion := 9, ipErrVersion := 10,
     v9SetSub := 4, v9Arms := [.tmpl, .optTmpl, .optData, .data], v9ScopeDiv := 4, v9OptDiv := 4, v9SkipEmpty := true,
-    v9ZeroIsErr := true, v9SizeSat := 65535, ipMsgSub := 16, ipSetSub := 4, ipArms := [.tmpl, .optTmpl, .data, .optData],
+    v9ZeroIsErr := true, v9StopOnErr := true, v9SizeSat := 65535, ipMsgSub := 16, ipSetSub := 4, ipArms := [.tmpl, .optTmpl, .data, .optData],
     ipTmplCmp := .lt, ipTmplCmp2 := .ne, ipEntCmp := .gt, ipEntThr := 32767, ipEntSub := 32768, ipValidCmp := .gt,
     ipValidThr := 0, ipVarLen := 65535, ipVarEscCmp := .eq, ipVarEsc := 255, ipBreakCmp1 := .eq, ipBreakVal := 0,
     ipBreakCmp2 := .lt, ipEmptyErr := true }
@@ -122,6 +125,15 @@ def v9ArmGuard (c : Config) (st : PState) (id : Nat) : V9Arm → Bool
   | .optData => (amLookup id st.v9O).isSome
   | .data => (amLookup id st.v9T).isSome
 
+/-- `FieldParser::parse` (v9): the record loop with the code's reaction to a record that does not decode — stop, or (the old `fold`)
+    go on with the same input.  Both give the same result (`G2.v9RecLoopK_eq`): a failing record leaves the input where it was. -/
+def v9RecLoopK (stop : Bool) (c : Config) (fs : List TField) : Nat → Bytes → List Rec → List Rec × Bytes
+  | 0, i, acc => (acc, i)
+  | n + 1, i, acc =>
+    match v9ParseRec c fs 0 i with
+    | none => if stop then (acc, i) else v9RecLoopK stop c fs n i acc
+    | some (r, i') => v9RecLoopK stop c fs n i' (acc ++ [r])
+
 def v9ArmRun (k : Ctl) (c : Config) (st : PState) (id : Nat) (body : Bytes) : V9Arm → PState × Res V9Body
   | .tmpl =>
     match many0 parseV9Template body with
@@ -149,7 +161,7 @@ def v9ArmRun (k : Ctl) (c : Config) (st : PState) (id : Nat) (body : Bytes) : V9
       let total := v9TotalSizeK k t.fields
       if total = 0 then (if k.v9ZeroIsErr then (st, .err) else (st, .panic))
       else
-        let (recs, pad) := v9RecLoop c t.fields (body.length / total) body []
+        let (recs, pad) := v9RecLoopK k.v9StopOnErr c t.fields (body.length / total) body []
         (st, .ok (.data recs pad))
     | none => (st, .err)
 
